@@ -959,6 +959,10 @@ func c08EvalAuth(args []string) string {
 				b := append([]byte{}, msg.body[:1+int(msg.body[0])]...)
 				return []c08Msg{{msg.typ, append(b, c08LenPrefixed16(c08LenPrefixed16(o.ca.RawSubject))...)}}
 			})
+		case "mitm-shd-body": // ServerHelloDone with a body (consistent length): the one message with nothing in it
+			onMsg("s2c", c08HsServerHelloDone, func(a *c08MitmState, msg c08Msg) []c08Msg {
+				return []c08Msg{{msg.typ, []byte{0}}}
+			})
 		case "mitm-cr-drop":
 			onMsg("s2c", c08HsCertificateRequest, func(a *c08MitmState, msg c08Msg) []c08Msg { return nil })
 		case "mitm-cr-insert":
@@ -1199,7 +1203,7 @@ var c08MitmAttacks = []string{"mitm-ch-version", "mitm-ch-version-low", "mitm-ch
 	"mitm-ch-ext-sni", "mitm-ch-ext-add", "mitm-sh-version", "mitm-sh-version-low", "mitm-sh-random", "mitm-sh-sessionid",
 	"mitm-sh-suite", "mitm-sh-suite-ecdhe", "mitm-sh-compression", "mitm-sh-ext-add", "mitm-cert-swap-sign", "mitm-cert-swap-enc",
 	"mitm-cert-reorder", "mitm-cert-truncate", "mitm-cert-empty", "mitm-cert-append", "mitm-cert-append-foreign", "mitm-ske-flip", "mitm-ske-replay",
-	"mitm-ske-drop", "mitm-cr-types", "mitm-cr-cas", "mitm-cr-drop", "mitm-cr-insert", "mitm-ccert-swap", "mitm-ccert-empty",
+	"mitm-ske-drop", "mitm-cr-types", "mitm-cr-cas", "mitm-cr-drop", "mitm-cr-insert", "mitm-shd-body", "mitm-ccert-swap", "mitm-ccert-empty",
 	"mitm-cke-flip", "mitm-cke-replay", "mitm-cv-flip", "mitm-cv-replay", "mitm-cv-drop", "mitm-cfin-flip", "mitm-sfin-flip",
 	"mitm-cccs-drop", "mitm-sccs-drop"}
 
